@@ -7,4 +7,6 @@ for p in "$@"; do
   echo "$n $p exit=$? :: $(echo "$out" | grep -E "tier=|VIOLATION" | tr '\n' ' ' | cut -c1-400)"
 done
 git -C /repo checkout -- . ; git -C /repo clean -fdq 2>/dev/null
+# evidence and regenerated Lean files written while the patch was applied are not evidence about /repo
+git -C /verif checkout -- evidence lean/ClockBound/Generated 2>/dev/null
 git -C /repo status --short | head -3
